@@ -25,6 +25,9 @@ CHECKS = {
  "C17": (True, "fault_enumeration", "fault injection with known token positions: every single-token corruption (insert/replace by a character that starts no ASN.1 token, delete, replace) of grammar-generated inputs; the reported offset/line/src_file and the three renderings (Display, contextualize, ReportData) are compared with positions known by construction",
          "For every corrupted input that the real compiler rejects with a syntax error: offset within input and on a char boundary, line = 1 + line breaks before offset, offset not before the end of the preceding definition and not after the offending character (exact upper bound for garbage-character faults), Display line = contextualize marked line = contextualize header line = ReportData.line, src_file = the path iff given as file. Exhaustive over token positions for inputs within the per-input budget, sampled otherwise.",
          "Trusted: own layout engine (token byte spans), fixed patterns for the message shapes. A blank/absent error line cannot carry the contextualize marker (it omits blank lines by design) and is not judged.", "DESIGN.md §4 C17"),
+ "C10": (True, "exploration", "conservation monitor over the hook event log: parsed inventory (H1) = emitted (H5 tokens + name present in the syn projection) u warned (H5 Err / named in a linker warning) u documented-silent; key overwrites (H2) explain losses; locality monitor: metamorphic comparison of the items of independent definitions before/after replacing 1..3 assignments by parseable-but-unsupported ones",
+         "Held on the executions observed: every top-level assignment of 1200+ generated module sets (quick) and of every compiling real-world module is accounted for in the event log; after 3 fault trials per input every definition outside the dependency cone of the replaced ones keeps byte-identical token-normalised items. 'Err carries nothing' holds by type (Result) and is not a run-time claim.",
+         "Trusted: hooks H1/H2/H5, model reference graph for the dependency cone, attribution of items to definitions by unique serial names. Object sets count as documented-silent under opaque_open_types (the default).", "DESIGN.md §4 C10"),
  "C11": (True, "exploration", "metamorphic byte-equality monitor over repeated / permuted / split / history-preceded / concurrent executions of the real compiler (rustfmt made unavailable); schedules: 2/4/8/16 native threads each compiling the whole shuffled input list, compared with a single-threaded reference",
          "Held on the executions observed: generated bytes and sorted warning strings are identical across repetition, every permutation of modules and of sources (<= 3 modules), all or k random permutations of assignments, one source vs one source per module, compilation after 1..3 other compilations on the same thread, and concurrent compilation on 2..16 threads, for grammar-generated sets (incl. value-import pairs aimed at the linker's import bookkeeping) and real-world modules.",
          "Trusted: String equality. Interleavings are whatever the OS scheduler produced in this run (not enumerated); the compiler has no shared mutable state by reading (DESIGN §1), Miri/TSan runs are not part of this revision's registered commands.", "DESIGN.md §4 C11"),
